@@ -11,6 +11,8 @@ DIFF : the bundled builders of wannierberri.models: Haldane_ptb(p) and Haldane_t
        tuple give the same bands and Berry curvature; model_1d_pythtb with manual and built-in spinors give the same
        bands; Chiral(.., no interlayer hopping) equals Haldane at every k_z; every builder (Chiral, SSH_ptb, CuMnAs_2d,
        KaneMele_ptb, Chiral_OSD, model_1d_pythtb) reproduces its own source eigenvalues.
+Extra : for PythTB models with all orbitals inside the home cell the band-resolved Berry curvature of the imported
+       system equals pythtb's own Kubo-formula curvature (observability of the orbital positions / spinor layout).
 Tolerance 1e-10 of max(band width, max|E|); evaluate_k averages bands closer than 1e-4 (documented degeneracy
 threshold), so its output is compared only at k-points where no gap lies in (1e-9, 1e-2)*scale (tie guard).
 """
@@ -277,6 +279,8 @@ def case_random(ctx, rng, wb, which):
               what="real lattice", witness=info)
     if list(system.periodic) != [True] * d + [False] * (3 - d):
         ctx.violation(f"{mech}:periodic_flags", f"periodic={system.periodic} for dim {d}", info)
+    if which == "pythtb" and info["positions"] == "inside" and len(dims) == info["dim_r"] >= 2:
+        berry_vs_pythtb(ctx, wb, model, system, kper, k3, Esrc, info)
     bw = float((Esrc.max(axis=0) - Esrc.min(axis=0)).max())
     if bw > 1e-3 or info.get("only_R0"):
         ctx.nontrivial(tuple(sorted((k, str(v)) for k, v in info.items())))
@@ -285,6 +289,33 @@ def case_random(ctx, rng, wb, which):
 
 def berry(wb, system, k):
     return np.asarray(wb.evaluate_k(system, k=tuple(k), quantities=["berry_curvature"]))
+
+
+def berry_vs_pythtb(ctx, wb, model, system, kper, k3, Esrc, wit, mech="from_pythtb"):
+    """band-resolved Berry curvature of the imported system vs pythtb's own Kubo formula (cartesian), only for
+    orbital positions inside the home cell (from_pythtb reduces the centres modulo 1 without relabelling the
+    hoppings, which changes the k-resolved curvature of models with orbitals outside - documented behaviour) and
+    at k-points without near-degeneracies"""
+    d = model.dim_r
+    planes = [(0, 1)] if d == 2 else [(1, 2), (2, 0), (0, 1)]
+    comp = [2] if d == 2 else [0, 1, 2]
+    scale = max(float(np.ptp(Esrc)), 1e-3)
+    for ik in range(min(2, len(kper))):
+        gaps = np.diff(Esrc[ik])
+        if len(gaps) == 0 or gaps.min() < 2e-2 * scale:
+            ctx.count("berry_tie_skipped")
+            continue
+        Ow = np.asarray(wb.evaluate_k(system, k=tuple(k3[ik]), quantities=["berry_curvature"]))  # (nb, 3)
+        Op = np.zeros((len(Esrc[ik]), len(comp)))
+        for n in range(len(Esrc[ik])):
+            for ic, pl in enumerate(planes):
+                Op[n, ic] = np.real(np.asarray(model.berry_curvature(np.array([kper[ik], kper[ik]]), occ_idxs=[n],
+                                                                       plane=pl, cartesian=True)).reshape(-1)[0])
+        amp = (scale / gaps.min()) ** 2
+        ctx.close(f"{mech}:berry_curvature!=source", Ow[:, comp], Op,
+                  atol=1e-8 * max(np.abs(Op).max(), np.abs(np.linalg.det(model.lat_vecs)) ** (2.0 / d) * 1e-2) * amp, rtol=0,
+                  what=f"band-resolved Berry curvature vs pythtb at k={kper[ik]}", witness=wit)
+        ctx.count("berry_vs_pythtb_compared")
 
 
 def case_bundled(ctx, rng, wb):
@@ -409,6 +440,6 @@ if __name__ == "__main__":
                      "compared through the sum of the energies only (tie guard), always through vlib.gen_systems.bands"],
         required_counters=("from_pythtb_spinful", "from_pythtb_spinless", "from_pythtb_dim1", "from_pythtb_dim2",
                            "from_pythtb_dim3", "from_tbmodels_dim1", "from_tbmodels_dim2", "from_tbmodels_dim3",
-                           "positions_outside_home_cell", "ptb_no_intercell_hopping", "bundled_haldane", "haldane_berry_compared",
+                           "positions_outside_home_cell", "ptb_no_intercell_hopping", "berry_vs_pythtb_compared", "bundled_haldane", "haldane_berry_compared",
                            "evaluate_k_compared"),
     )
